@@ -21,7 +21,7 @@ WORDS = ["alpha", "beta", "gamma", "delta", "omega", "sigma", "kappa", "zeta"]
 
 LANGS = ["English (en)", "French (fr)", "es", "Klingon", "default", "English", "French"]
 
-NAME_PREFIX = ["q", "a", "x_", "n-", "v.", "é", "_", "Q", "k9", "guidance_hint_", "hint", "label_", "q_guidance_hint", "group_", "repeat_", "meta_", "jr_"]
+NAME_PREFIX = ["q", "a", "x_", "n-", "v.", "é", "_", "Q", "k9", "guidance_hint_", "hint", "label_", "q_guidance_hint", "group_", "repeat_", "meta_", "jr_", "É", "Ö", "À", "Øx", "ÿ"]
 
 
 def _bad_plain(s: str) -> bool:
@@ -175,6 +175,9 @@ class G:
     # -- expressions
     def lit(self):
         self.txtn += 1
+        if self.P.get("p_lit_ws", 0) and self.p("p_lit_ws"):
+            # a string literal typed over two lines or with a tab (Alt+Enter in a spreadsheet cell)
+            return f"'k{self.txtn}" + self.pick(["\n", "\t", "\n\n", " \n "]) + "z'"
         return f"'k{self.txtn}'"
 
     def expr(self, ctx=None, kind="bool"):
